@@ -56,6 +56,7 @@ func Harness_C04_close_releases() {
 func Harness_C04_broadcast_on_change() {
 	s := verifArbitraryBuffer(1)
 	c, _, delta := s.verifAddConsumer("c")
+	_, _, _ = s.verifAddConsumer("other") // a second consumer stays registered
 	b := s.b
 	op := verifNondetInt("op")
 	verifAssume(op >= 0 && op <= 3)
